@@ -162,6 +162,17 @@ async fn run_case<TC: Configuration>(cc: &CaseCtx, case: &HistCase, rng: &mut Rn
                     judge(l, "A1-old-version-forged-freshness", label, p, cur, Some(anchor.label_len), &w);
                 }
             }
+            // A8: the freshness proof speaks about a label with the stale leaf's bits but a bit length
+            // k < 256 (genuinely absent from the tree): only the VRF binding of the claimed node label can
+            // reject it
+            if let Some(base) = forge.lookup_proof(label, old.version, &old.value, old.epoch, None).await {
+                for (k, keep, nm) in forge.view.shortened_label_nonmembership(&stale) {
+                    let mut p = base.clone();
+                    p.freshness_proof = nm;
+                    l.count("A8_shortened_label_candidates", 1);
+                    judge(l, if keep { "A8-freshness-label-shortened-bytes-kept" } else { "A8-freshness-label-shortened-canonical" }, label, p, cur, Some(k), &w);
+                }
+            }
             // the server's own generator asked for the non-membership of an existing stale leaf
             if let Ok(DbRecord::Azks(azks)) = w.mgr.get_direct::<Azks>(&akd::append_only_zks::DEFAULT_AZKS_KEY).await {
                 if let (Some(mut p), Ok(nm)) = (
